@@ -99,7 +99,7 @@ def tfunLayout (cfg : Cfg) (es : InEdges) (comps : List (List (Int × G))) (real
         out := out ++ [("K:ordered", orderedOK b, "layer lists are not ordered by LayerPos 0..k-1")]
         -- the whole ordering phase, exactly (bounded size: the model recounts crossings for every transposition)
         if heavy && b.nodes.size ≤ 48 then
-          match (breakLongEdges a) >>= orderWMedian 24 with
+          match (breakLongEdges a) >>= orderWMedianP 24 with
           | .error e => out := out ++ [("T:phase3-wmedian", false, s!"model error {e}")]
           | .ok (g, bx) =>
             out := out ++ [cmpG "T:phase3-wmedian" (pure g) b]
@@ -152,7 +152,7 @@ def tfunLayout (cfg : Cfg) (es : InEdges) (comps : List (List (Int × G))) (real
     | _, _ => pure ()
   -- the composed model, from the raw input to the public result (small inputs, configurations with exact models)
   if heavy && cfg.p1 ≤ 1 && cfg.p4 ≤ 4 && cfg.p5 != 3 && es.length ≤ 16 then
-    match layoutModel (fun g => (orderWMedian 24 g).map (·.1)) cfg es with
+    match layoutModel (fun g => (orderWMedianP 24 g).map (·.1)) cfg es with
     | .error e => out := out ++ [("T:pipeline", false, s!"model error {e}")]
     | .ok m => out := out ++ [("T:pipeline", m == real, firstDiffOut m real)]
   -- result collection
